@@ -54,3 +54,113 @@ void pl_lemma_consts(void)
 {
   __CPROVER_assert((Z)kSecsPer400Years == P400 && kSecsPerDay == 86400, "kSecsPer400Years is the number of seconds in 400 Gregorian years");
 }
+
+/* ======================================================================================================================================
+ * C03 (instant -> civil -> instant): property lemmas over the CONTRACTS of BreakTime and MakeTime (both calls are replaced by their
+ * contracts: preconditions asserted, postconditions assumed; no function body is involved).  The table is symbolic; the facts assumed are
+ * instances, at the rows named below, of the table invariants (WFI / TYWF / MARGIN, order by unix time and by civil time, spacing).
+ * Each lemma is one scenario of "t lies in row i's interval"; together: before the first row, after the last row, inside (cs before / at
+ * or after the next row's civil second - the latter only happens in the last seconds before an overlap).
+ * Conclusion in every scenario: the lookup is not SKIPPED, and it is UNIQUE with pre == t or REPEATED with t == pre or t == post. */
+static TimeZoneInfo* c03_zone(void)
+{
+  TimeZoneInfo* z = malloc(sizeof(TimeZoneInfo));
+  size_t n, nty;
+  __CPROVER_assume(1 <= n && n <= ZMAXTR && 1 <= nty && nty <= 256);
+  z->transitions_.size = n;
+  z->transitions_.data = malloc(n * sizeof(Transition));
+  z->transition_types_.size = nty;
+  z->transition_types_.data = malloc(nty * sizeof(TransitionType));
+  __CPROVER_assume(DEFTY(z) < NTY(z) && VSTR_WF(z->abbreviations_) && !z->extended_);
+  gz_extended = 0;
+  /* ends of the table (what both contracts require of every zone) */
+  __CPROVER_assume(WFI(z, 0) && WFI(z, NTR(z) - 1) && TYWF(z, DEFTY(z)) && TYWF(z, TR(z, NTR(z) - 1).type_index));
+  __CPROVER_assume(TR(z, 0).unix_time < 0 && TR(z, NTR(z) - 1).unix_time >= 0 && MARGIN(z, 0) && MARGIN(z, NTR(z) - 1));
+  __CPROVER_assume(NTR(z) > 1 ? LEXLT(TR(z, 0).civil_sec, TR(z, NTR(z) - 1).civil_sec) : 1);
+  return z;
+}
+#define C03_OK(cl, t) ((cl).kind != KIND_SKIPPED && ((cl).kind == KIND_UNIQUE ? (cl).pre == (t) : ((cl).pre == (t) || (cl).post == (t))))
+#define LEX2(a, b) USE(lemma_osec_lex_REQ(a, b), lemma_osec_lex_ENS(a, b), "osec_lex"); USE(lemma_osec_lex_REQ(b, a), lemma_osec_lex_ENS(b, a), "osec_lex")
+/* uniqueness of brackets (instances of the two sort orders), for whatever the hint happens to be */
+#define C03_HINTS(z, t, cs) \
+  __CPROVER_assume((0 < gz_hint && gz_hint < NTR(z) && TR(z, gz_hint - 1).unix_time <= (t) && (t) < TR(z, gz_hint).unix_time) ? gz_hint - 1 == gz_i : 1)
+
+/* t inside row i's interval, and its civil second is earlier than the next row's: the civil bracket ends at row i+1 */
+void pl_C03_inside_a(void)
+{
+  TimeZoneInfo* z = c03_zone();
+  time_point_s t;
+  __CPROVER_assume(BT_MIDDLE(z, t) && TBRACKET(z, gz_i, t) && WFI(z, gz_i) && WFI(z, gz_i + 1) && MARGIN(z, gz_i) && MARGIN(z, gz_i + 1));
+  __CPROVER_assume(FITS64((Z)t - TR(z, gz_i).unix_time));
+  C03_HINTS(z, t, 0);
+  absolute_lookup al = BreakTime(z, t);
+  fields cs = al.cs;
+  LEX2(cs, TR(z, gz_i).civil_sec); LEX2(cs, TR(z, gz_i + 1).civil_sec); LEX2(cs, TR(z, gz_i + 1).prev_civil_sec); LEX2(cs, TR(z, gz_i).prev_civil_sec);
+  LEX2(cs, TR(z, 0).civil_sec); LEX2(cs, TR(z, NTR(z) - 1).civil_sec);
+  __CPROVER_assume(OSEC(cs) < OSEC(TR(z, gz_i + 1).civil_sec));                 /* scenario a */
+  gz_j = gz_i + 1;
+  /* instances of the civil order: row 0 <= row i, row i+1 <= last row */
+  __CPROVER_assume(OSEC(TR(z, 0).civil_sec) <= OSEC(TR(z, gz_i).civil_sec) && OSEC(TR(z, gz_i + 1).civil_sec) <= OSEC(TR(z, NTR(z) - 1).civil_sec));
+  __CPROVER_assume((0 < gz_hint && gz_hint < NTR(z) && !LEXLT(cs, TR(z, gz_hint - 1).civil_sec) && LEXLT(cs, TR(z, gz_hint).civil_sec)) ? gz_hint == gz_j : 1);
+  civil_lookup cl = MakeTime(z, cs);
+  __CPROVER_assert(C03_OK(cl, t), "C03: looking the civil second of t up again recovers t (inside, before the next row's civil second)");
+}
+
+/* t in the last seconds before an overlap at row i+1 (its civil second is already >= that row's), row i+2 exists and is far enough */
+void pl_C03_inside_b(void)
+{
+  TimeZoneInfo* z = c03_zone();
+  time_point_s t;
+  __CPROVER_assume(BT_MIDDLE(z, t) && TBRACKET(z, gz_i, t) && WFI(z, gz_i) && WFI(z, gz_i + 1) && MARGIN(z, gz_i) && MARGIN(z, gz_i + 1));
+  __CPROVER_assume(gz_i + 2 < NTR(z) && WFI(z, gz_i + 2) && MARGIN(z, gz_i + 2) && TR(z, gz_i + 1).unix_time < TR(z, gz_i + 2).unix_time);
+  __CPROVER_assume(FITS64((Z)t - TR(z, gz_i).unix_time));
+  C03_HINTS(z, t, 0);
+  absolute_lookup al = BreakTime(z, t);
+  fields cs = al.cs;
+  LEX2(cs, TR(z, gz_i + 1).civil_sec); LEX2(cs, TR(z, gz_i + 1).prev_civil_sec); LEX2(cs, TR(z, gz_i + 2).civil_sec); LEX2(cs, TR(z, gz_i + 2).prev_civil_sec);
+  LEX2(cs, TR(z, 0).civil_sec); LEX2(cs, TR(z, NTR(z) - 1).civil_sec);
+  __CPROVER_assume(OSEC(cs) >= OSEC(TR(z, gz_i + 1).civil_sec));                /* scenario b */
+  /* spacing (well-formed zones: offset changes farther apart than the sum of their sizes): rows i+1 and i+2 are more than two days apart */
+  __CPROVER_assume((Z)TR(z, gz_i + 2).unix_time - (Z)TR(z, gz_i + 1).unix_time > 2 * 86400);
+  gz_j = gz_i + 2;
+  __CPROVER_assume(OSEC(TR(z, 0).civil_sec) <= OSEC(TR(z, gz_i + 1).civil_sec) && OSEC(TR(z, gz_i + 2).civil_sec) <= OSEC(TR(z, NTR(z) - 1).civil_sec));
+  __CPROVER_assume((0 < gz_hint && gz_hint < NTR(z) && !LEXLT(cs, TR(z, gz_hint - 1).civil_sec) && LEXLT(cs, TR(z, gz_hint).civil_sec)) ? gz_hint == gz_j : 1);
+  civil_lookup cl = MakeTime(z, cs);
+  __CPROVER_assert(C03_OK(cl, t), "C03: recovered (inside, in the last seconds before an overlap)");
+}
+
+/* t before the first row */
+void pl_C03_before(void)
+{
+  TimeZoneInfo* z = c03_zone();
+  time_point_s t;
+  __CPROVER_assume(t < TR(z, 0).unix_time);
+  __CPROVER_assume((Z)t >= (Z)INT64_MIN + 2 * 86400);            /* C03's range: t in [min()+1day, max()-1day] */
+  __CPROVER_assume(NTR(z) >= 2 && WFI(z, 1) && MARGIN(z, 1) && TR(z, 0).unix_time < TR(z, 1).unix_time && (Z)TR(z, 1).unix_time - (Z)TR(z, 0).unix_time > 2 * 86400);
+  absolute_lookup al = BreakTime(z, t);
+  fields cs = al.cs;
+  LEX2(cs, TR(z, 0).civil_sec); LEX2(cs, TR(z, 0).prev_civil_sec); LEX2(cs, TR(z, 1).civil_sec); LEX2(cs, TR(z, 1).prev_civil_sec); LEX2(cs, TR(z, NTR(z) - 1).civil_sec);
+  LEX2(cs, TY(z, DEFTY(z)).civil_min);
+  gz_j = 1;
+  __CPROVER_assume(OSEC(TR(z, 1).civil_sec) <= OSEC(TR(z, NTR(z) - 1).civil_sec));
+  __CPROVER_assume((0 < gz_hint && gz_hint < NTR(z) && !LEXLT(cs, TR(z, gz_hint - 1).civil_sec) && LEXLT(cs, TR(z, gz_hint).civil_sec)) ? gz_hint == gz_j : 1);
+  civil_lookup cl = MakeTime(z, cs);
+  __CPROVER_assert(C03_OK(cl, t), "C03: recovered (before the first row)");
+}
+
+/* t at or after the last row */
+void pl_C03_after(void)
+{
+  TimeZoneInfo* z = c03_zone();
+  time_point_s t;
+  __CPROVER_assume(t >= TR(z, NTR(z) - 1).unix_time);
+  __CPROVER_assume((Z)t <= (Z)INT64_MAX - 2 * 86400);
+  __CPROVER_assume(FITS64((Z)t - TR(z, NTR(z) - 1).unix_time));
+  absolute_lookup al = BreakTime(z, t);
+  fields cs = al.cs;
+  LEX2(cs, TR(z, 0).civil_sec); LEX2(cs, TR(z, NTR(z) - 1).civil_sec); LEX2(cs, TR(z, NTR(z) - 1).prev_civil_sec);
+  LEX2(cs, TY(z, TR(z, NTR(z) - 1).type_index).civil_max);
+  __CPROVER_assume((0 < gz_hint && gz_hint < NTR(z) && !LEXLT(cs, TR(z, gz_hint - 1).civil_sec) && LEXLT(cs, TR(z, gz_hint).civil_sec)) ? gz_hint == gz_j : 1);
+  civil_lookup cl = MakeTime(z, cs);
+  __CPROVER_assert(C03_OK(cl, t), "C03: recovered (at or after the last row)");
+}
